@@ -117,6 +117,32 @@ class Rat:
         return "(%s)/(%s)" % (ps(self.num), ps(self.den))
 
 
+def _poly_sign(p: Poly, signs: Dict[Any, int]) -> Optional[int]:
+    """Sign of a polynomial when every atom has a known non-zero sign: determined iff all monomials agree."""
+    if not p:
+        return 0
+    seen = set()
+    for m, c in p.items():
+        s = 1 if c > 0 else -1
+        for a, k in m:
+            sa = signs.get(a)
+            if sa is None:
+                return None
+            if k % 2:
+                s *= sa
+        seen.add(s)
+    return seen.pop() if len(seen) == 1 else None
+
+
+def sign_under(r: "Rat", signs: Dict[Any, int]) -> Optional[int]:
+    """Sign of a rational function under sign assumptions on its atoms (None if not determined)."""
+    n = _poly_sign(r.num, signs)
+    d = _poly_sign(r.den, signs)
+    if n is None or d is None or d == 0:
+        return None
+    return n * d
+
+
 def to_rat(v: Any, atom_map=None) -> Rat:
     """Value tree -> rational function.  `atom_map(v)` may rewrite a sub-tree to another value tree / Rat first."""
     if atom_map is not None:
